@@ -286,6 +286,25 @@ func (r *Run) judgeRaceBlock(block []string, path string) {
 		r.Inconclusive("race report without sdns frames (harness race?) in " + path)
 		return
 	}
+	// The racing ACCESSES are the innermost frames of the two stacks. When both
+	// are harness code (…/zzverif/… or package main) the race is the harness's
+	// own, whatever sdns frames sit further out on the stacks (a stub handler is
+	// always called from Chain.Next): a harness error, never an sdns violation.
+	topIsHarness := func(st []string) bool {
+		for _, l := range st {
+			m := raceFrameRe.FindStringSubmatch(l)
+			if m == nil {
+				continue
+			}
+			fn := m[1]
+			return strings.HasPrefix(fn, "main.") || strings.Contains(fn, "/zzverif/")
+		}
+		return false
+	}
+	if len(stacks) > 1 && topIsHarness(stacks[0]) && topIsHarness(stacks[1]) {
+		r.Inconclusive("race between two harness accesses (harness bug, not sdns) in " + path)
+		return
+	}
 	if b < a {
 		a, b = b, a
 	}
